@@ -1,6 +1,6 @@
 SPECIFICATION Spec
 CONSTANTS Cids = {c1, c2}
-          MaxOps = 4
+          MaxOps = 3
           MaxRb = 1
           NProd = 2
           AsBuilt = {"Refresh"}
